@@ -283,6 +283,12 @@ func checkC13(ctx *core.Ctx, rep *core.Report) {
 	if code == 0 {
 		rep.Violate("C13|cli_unknown_profile_accepted", "zlint -profile no_such_profile_x exits 0", op("cli", "-profile"))
 	}
+	c13Histories(ctx, rep)
+}
+
+// listed ⇒ selectable must hold in every state of the registry, not only just after start-up (reghist.go)
+func c13Histories(ctx *core.Ctx, rep *core.Report) {
+	regHistories(ctx, rep, "C13", map[string]bool{"select": true}, regHistDepth(ctx))
 }
 
 // isKnownSourceString: a variant that happens to be another known constant
